@@ -60,16 +60,20 @@ GEN = {
     ("C20", "quick"): [("basic", ["P:A", "P:S"], 2, 1, 1, 0), ("chord", ["P:LEFTCTRL", "P:K"], 2, 1, 1, 0), ("passthru", ["R:1"], 1, 1, 0, 0, NINE)],
     ("C20", "thorough"): [("passthru", ["R:1", "P:A"], 2, 2, 0, 0, NINE), ("basic", ["P:A", "R:A", "P:S"], 3, 1, 1, 1), ("chord", ["P:LEFTCTRL", "P:K", "R:K"], 3, 1, 2, 0), ("norep", ["P:LEFTSHIFT", "P:A", "P:S"], 3, 1, 1, 0)],
 }
+# C06 at the loop (see ALIAS): a running repeat, held keys and chords across tablet-mode changes
+GEN[("C06", "quick")] = [("basic", ["P:S"], 1, 2, 2, 0), ("shiftchord", ["P:LEFTSHIFT", "P:A", "R:LEFTSHIFT"], 3, 1, 0, 0), ("chord", ["P:LEFTCTRL", "P:K"], 2, 1, 1, 0)]
+GEN[("C06", "thorough")] = GEN[("C12", "thorough")]
 # random (simulated) behaviours at larger bounds
 SIM = {
     "C10": [("basic", ["P:A", "R:A", "P:S", "R:S"], 6, 1, 1, 1), ("absorb", ["P:C", "P:A", "R:A", "P:B", "R:C"], 6, 1, 0, 1)],
     "C11": [("basic", ["P:S", "R:S", "P:A"], 5, 2, 4, 0), ("norep", ["P:LEFTSHIFT", "P:S", "R:S", "P:D", "R:LEFTSHIFT"], 6, 1, 4, 0), ("chord", ["P:LEFTCTRL", "R:LEFTCTRL", "P:K", "R:K"], 5, 1, 4, 0)],
     "C12": [("basic", ["P:S", "R:S", "P:A", "R:A"], 6, 3, 2, 0), ("absorb", ["P:C", "R:C", "P:A", "P:B"], 6, 3, 0, 0), ("chord", ["P:LEFTCTRL", "P:K", "R:K", "R:LEFTCTRL"], 5, 3, 2, 0)],
     "C20": [("basic", ["P:A", "R:A", "P:S"], 4, 2, 2, 1)],
+    "C06": [],
 }
 INVARIANTS = ["NoLostWakeup", "SendsAreMapperOutputs", "QuietInTabletMode", "HeldMatches", "ReleasedInTablet", "ChordsAreTransient", "StopsOnFailure", "EmitSchedule"]
 # registers of LoopTrace that must be non-zero for a run of the property to be non-vacuous
-NEED = {"C10": [4, 8], "C11": [3, 6], "C12": [5, 9, 10], "C20": [7]}
+NEED = {"C10": [4, 8], "C11": [3, 6], "C12": [5, 9, 10], "C20": [7], "C06": [5, 10]}
 REGS = ["traces", "drifts", "chords_judged", "step_sends_judged", "releaseall_sends_judged", "timed_polls_judged", "failing_calls_judged",
         "polls_with_unread_events_queued", "key_events_read_in_tablet_mode", "tablet_on_with_keys_held"]
 
@@ -307,8 +311,15 @@ def startup_runs(res, exe, wd, tier):
                                  "are replayed through the mapper although the system has already seen them)"}}
 
 
-def clause_prop(c):
-    """C11-chord-content -> C11; KNOWN-D4-C11-... -> C11; ENV-... -> ENV"""
+# loop-level clauses that are ALSO what another property says, seen at the loop: C06 ("after the release-all operation used on tablet-mode
+# changes nothing is held ... answers as a newly created mapper ... no memory of ... repeat triggers survives")
+ALIAS = {"C06": {"C12-repeat-survives-tablet-switch", "C12-not-fresh-after-tablet-mode", "C12-not-released-at-tablet-on"}}
+
+
+def clause_prop(c, prop=None):
+    """C11-chord-content -> C11; KNOWN-D4-C11-... -> C11; ENV-... -> ENV; with prop: a clause listed under ALIAS[prop] counts for prop"""
+    if prop and c in ALIAS.get(prop, ()):
+        return prop
     parts = c.split("-")
     return parts[2] if parts[0] == "KNOWN" and len(parts) > 2 else parts[0]
 
@@ -334,9 +345,9 @@ def digest(res, prop, cases, bad, kn):
         env = [c for c in clauses if c.startswith("ENV-")]
         if env:
             res.tool_errors.append("the recorder's environment misbehaved in trace %s: %s" % (tid, env))
-        mine = [c for c in clauses if clause_prop(c) == prop]
+        mine = [c for c in clauses if clause_prop(c, prop) == prop]
         for c in clauses:
-            if clause_prop(c) not in (prop, "ENV"):
+            if clause_prop(c, prop) not in (prop, "ENV"):
                 others[c] = others.get(c, 0) + 1
         if mine:
             c = by_id.get(base_id(tid))
@@ -376,6 +387,24 @@ def variants(prop, tier, cases):
     return out
 
 
+def loop_level(res, exe, wd, tier, prop):
+    """The loop-level reading of a mapper property (ALIAS): TLC-enumerated schedules of Loop.tla, the real loop (scripted driver and system-call level), LoopTrace.tla;
+    the aliased clauses count as violations of `prop`. Adds to `res`; returns an evidence dict."""
+    cases, gen, dist = generate(res, wd, prop, tier)
+    if res.tool_errors:
+        return {}
+    runs_cases = variants(prop, tier, cases)
+    nlines, counters, bad, kn = record_and_validate(res, exe, wd, runs_cases, prop)
+    digest(res, prop, runs_cases, bad, kn)
+    regs = dict(zip(REGS, counters))
+    if not res.tool_errors:
+        missing = [REGS[i - 1] for i in NEED[prop] if counters[i - 1] == 0]
+        if missing:
+            res.tool_errors.append("vacuous loop-level run: never exercised: %s" % missing)
+    return {"loop_level_clauses": sorted(ALIAS[prop]), "loop_level_schedules": len(cases), "loop_level_runs_of_the_real_loop": regs["traces"], "loop_level_trace_lines_validated": nlines,
+            "loop_level_monitor_counters": regs, "loop_level_model_states": dist}
+
+
 def check(prop, tier, replay_file=None):
     res = Result(prop, tier, "fault_enumeration" if prop == "C20" else "model_checking")
     try:
@@ -390,7 +419,7 @@ def check(prop, tier, replay_file=None):
             if res.tool_errors:
                 log("TOOL-ERROR: " + res.tool_errors[0])
                 return 2
-            mine = [c for _, cl in bad for c in cl if clause_prop(c) == prop]
+            mine = [c for _, cl in bad for c in cl if clause_prop(c, prop) == prop]
             if mine:
                 log("VIOLATION property=%s replay=%s clause=%s" % (prop, replay_file, ",".join(sorted(set(mine)))))
                 return 1
